@@ -948,6 +948,17 @@ std::string Generator::GeneratorImpl::generateOperatorCode(const std::string &op
     auto astLeftChildCode = generateCode(astLeftChild);
     auto astRightChildCode = generateCode(astRightChild);
 
+    // A unary plus generates the code of its operand, so it is that operand
+    // that matters when it comes to adding parentheses.
+
+    while (isPlusOperator(astLeftChild) && (astLeftChild->rightChild() == nullptr)) {
+        astLeftChild = astLeftChild->leftChild();
+    }
+
+    while (isPlusOperator(astRightChild) && (astRightChild->rightChild() == nullptr)) {
+        astRightChild = astRightChild->leftChild();
+    }
+
     // Determine whether parentheses should be added around the left and/or
     // right piece of code, and this based on the precedence of the operators
     // used in CellML, which are listed below from higher to lower precedence:
